@@ -178,7 +178,7 @@ impl<T: CoordsFloat> CMap3<T> {
                 OrbitPolicy::Face,
                 l_face,
                 r_face,
-                l_face.max(r_face)
+                l_face.min(r_face)
             ),
             SewError
         );
@@ -198,7 +198,7 @@ impl<T: CoordsFloat> CMap3<T> {
                     OrbitPolicy::Edge,
                     eid_l,
                     eid_r,
-                    eid_l.max(eid_r)
+                    eid_l.min(eid_r)
                 ),
                 SewError
             );
@@ -211,7 +211,7 @@ impl<T: CoordsFloat> CMap3<T> {
                 self.vertex_id_transac(trans, r)?,
             );
             try_or_coerce!(
-                self.vertices.split(trans, vid_l, vid_r, vid_l.max(vid_r)),
+                self.vertices.split(trans, vid_l, vid_r, vid_l.min(vid_r)),
                 SewError
             );
             try_or_coerce!(
@@ -220,7 +220,7 @@ impl<T: CoordsFloat> CMap3<T> {
                     OrbitPolicy::Vertex,
                     vid_l,
                     vid_r,
-                    vid_l.max(vid_r)
+                    vid_l.min(vid_r)
                 ),
                 SewError
             );
@@ -233,7 +233,7 @@ impl<T: CoordsFloat> CMap3<T> {
                 );
                 try_or_coerce!(
                     self.vertices
-                        .split(trans, lvid_l, lvid_r, lvid_l.max(lvid_r)),
+                        .split(trans, lvid_l, lvid_r, lvid_l.min(lvid_r)),
                     SewError
                 );
                 try_or_coerce!(
@@ -242,7 +242,7 @@ impl<T: CoordsFloat> CMap3<T> {
                         OrbitPolicy::Vertex,
                         lvid_l,
                         lvid_r,
-                        lvid_l.max(lvid_r),
+                        lvid_l.min(lvid_r),
                     ),
                     SewError
                 );
